@@ -370,7 +370,12 @@ def find_stage_prepend_append(
         return (prepend, None)
 
     logger.debug("Total PE size: %u", size)
-    fh.seek(mz_offset + size)
+    try:
+        fh.seek(mz_offset + size)
+    except (OSError, OverflowError, ValueError):
+        # the section table claims more raw data than the file object can address
+        # (e.g. EINVAL beyond the file system's maximum offset): nothing can follow the image
+        return (prepend, None)
 
     # we limit the append size to 1024, just in case.
     append = fh.read(1024) or None
